@@ -21,13 +21,27 @@ MODELLED = ("plumbing/object/tree.go: Tree.Decode (filemode.FromBytes, canonical
             "treeEntrySortName / TreeEntrySorter; internal/pathutil: ValidTreePath, IsDotGitName, IsHFSDot (UTF-8 view of "
             "[]rune), IsNTFSDotGit, IsNTFSDot with the four dot-file names (Model/TreeObj.v; canonicalTreeMode, "
             "isValidTreeMode, asciiToLower, the filemode constants and maxTreeEntryNameLen are regenerated into Gen/C04.v); "
-            "spec: git's decode_tree_entry / canon_mode (ls-tree) and fsck_tree with verify_ordered, the d/f name stack, "
-            "is_hfs_dotgit (pick_one_utf8_char), is_ntfs_dotgit (Spec/GitTree.v); not modelled: bufio buffering of the "
-            "decoder, object storage, SHA-256 object ids (20-byte ids throughout), filepath.VolumeName (always \"\" on unix)")
+            "spec (Spec/GitTree.v, shares no detector code with the model): git's decode_tree_entry / canon_mode (ls-tree), "
+            "fsck_tree with verify_ordered and the d/f name stack, utf8.c pick_one_utf8_char (code points decoded) / next_hfs_char "
+            "(its own list of 16 ignored code points) / is_hfs_dot_generic, path.c is_ntfs_dotgit and is_ntfs_dot_generic "
+            "(index-wise over a NUL-terminated string: strncasecmp, only_spaces_and_periods, the fall-back short-name loop); "
+            "PROVED: IsHFSDot = is_hfs_dot_generic for every needle on byte strings that are well-formed UTF-8 (git's notion) "
+            "whenever they start like a dot-file, IsNTFSDotGit = is_ntfs_dotgit on a path component, IsNTFSDot = "
+            "is_ntfs_dot_generic for needle pairs of git's shape, ValidTreePath accepted => no hasDotgit, git's .gitmodules verdict "
+            "= Validate's two tests + the backslash-suffix test it lacks, written trees fsck-clean under name_guard, the 7-digit "
+            "mode limit is the only difference between the readers; only exercised (impl = model on every run): the hand-written "
+            "models of the pathutil detectors themselves (incl. []rune decoding and strings.ToLower / EqualFold on non-ASCII); "
+            "not modelled: bufio buffering of the decoder, object storage, SHA-256 object ids (20-byte ids throughout), "
+            "filepath.VolumeName (always \"\" on unix)")
+LEVEL_NOTE = ("the detector equivalences carry the boolean guards is_bytes (all values < 256), utf8_guard (= wf_utf8 || the first "
+              "non-ignored character is not '.'), NUL-free and '/'-free names; the full statement without utf8_guard is false "
+              "(C04_hfs_dot_malformed_refuted, known finding hfs-dotgit-malformed-tail); C04_written_clean_partial = fsck reports "
+              "nothing under name_guard, C04_written_clean_structural = no structural message with no guard at all")
 TRUSTED = [
     "C-impl: Tree.Decode / Tree.Encode / Tree.Validate (harness/cmd/c04) vs Model/TreeObj.v on every case",
     "C-git: Spec/GitTree.git_ls_tree vs `git ls-tree -z` and git_fsck_tree vs the error lines of `git fsck --strict` "
-    "on every tree of the run (trees written with the loose-object encoding, as hash-object --literally would)",
+    "on the trees of the run (quick tier: every tree of the HFS+/NTFS disguise buckets and the grid, a spread sample of the "
+    "rest; thorough tier: all) — trees written with the loose-object encoding, as hash-object --literally would",
 ]
 ASSUMPTIONS = [
     "git reads and checks trees as transcribed in Spec/GitTree.v (validated against git 2.39.5 on each run)",
@@ -37,7 +51,13 @@ ASSUMPTIONS = [
 RULE = ("case = raw tree bytes to decode (valid, unsorted, duplicates, zero-padded / garbage / over-long modes, odd names, "
         "truncations, random) or an entry set to validate and encode (valid sets, .git disguises for HFS+/NTFS incl. malformed "
         "UTF-8, control / separator bytes, dot-file symlinks, mode grid, duplicates, unsorted, null ids, names of 4095..4097 "
-        "bytes); non-trivial = more than one entry or an odd name / mode; distinct by content")
+        "bytes; generated disguises: dot-file names with HFS+-ignorable code points, their neighbours, well-formed 2/3/4-byte "
+        "and malformed sequences (truncated, overlong, surrogate, U+FFFE/FFFF, > U+10FFFF, stray continuation) at the head / "
+        "inside / at the tail; NTFS short names git~N, gitmod~N, gi7eba~N... with tilde positions 0..7, digit and case "
+        "mutations, tails of spaces / periods / colon, backslash-separated prefixes and suffixes; regular, symlink, dir and "
+        "gitlink modes; plus a fixed grid replayed on every run: each of the 16 ignored code points inside .git, one per range "
+        "inside a .gitmodules symlink, the neighbours of the ranges, the short-name digit and tail boundaries); "
+        "non-trivial = more than one entry or an odd name / mode; distinct by content")
 
 GITENV = {"GIT_CONFIG_NOSYSTEM": "1", "GIT_CONFIG_GLOBAL": "/dev/null", "LC_ALL": "C", "TZ": "UTC",
           "PATH": os.environ.get("PATH", "/usr/bin:/bin")}
@@ -280,6 +300,12 @@ def git_ntfs_dot(name, dotgit=b"gitmodules", short=b"gi7eba"):
             return False
         i += 1
     return tail(i)
+
+
+def dotfile_variant(n):
+    """an HFS+ / NTFS variant (in git's sense) of .gitattributes, .gitignore or .mailmap"""
+    return any(git_ntfs_dot(n, d, sh) or strip_ign(n).lower() == b"." + d
+               for d, sh in ((b"gitattributes", b"gi7d29"), (b"gitignore", b"gi250a"), (b"mailmap", b"maba30")))
 
 
 def gitmodules_after_backslash(n):
@@ -574,7 +600,7 @@ class Main(Suite):
                 return "name-over-4096"
             if any(b"\xc4\xb0" in n for n in names):
                 return "dotgit-u0130-fold"
-            if any(x["mode"] == 0o120000 for x in c["entries"]):
+            if any(x["mode"] == 0o120000 and dotfile_variant(bytes.fromhex(x["name"])) for x in c["entries"]):
                 return "dotfile-symlink"
         return None
 
